@@ -288,7 +288,7 @@ CHECKS = {
             "identity across restart (VerifC05Identity): instances are made by the PUBLIC NewOrbitDB with neither keystore nor identity given, so the real code opens the keystore datastore under <directory>/<peer id>/keystore (disk model incl. leveldb's directory lock), builds the real go-ipfs-log Keystore (real LRU cache, base64) and runs the real idp.CreateIdentity / OrbitDBIdentityProvider (GetID, signID, SignIdentity); secp256k1 key generation, (un)marshalling and signatures are symbolic stand-ins (fresh keys pairwise distinct, verify(pub(k),m,s) <=> s = sign(k,m)); same directory => same id and public key and the creator-only database is still writable; other directory / in-memory default => another identity whose write is refused; a second instance cannot open the keystore of one still open; Close releases it",
             "clean close / reopen cycles at instance level (VerifC05Reopen): a real orbitDB instance over the real cache manager (cacheleveldown) on the disk model creates a database by name, writes, closes; CYCLES times a new instance on the same directory reopens it by address or by name with Create (the path of the Log / KeyValue / Docs helpers: Create with Overwrite), optionally after an attempt that failed (DAG unreachable while the manifest is read, cancelled context, unregistered store type) and optionally an instance restart after the failure; Load(-1) must yield exactly the acknowledged entries, and a further write succeeds",
         ],
-        "outside": ["durability of leveldb / flatfs themselves, torn writes", "real secp256k1 key generation / signatures and the on-disk format of the keystore (keys are symbolic tokens, leveldb is the disk model with its directory lock)", "crashes during concurrent writers (C17 decides the write path's atomicity)"],
+        "outside": ["a write issued on a reopened store BEFORE its Load has completed (the write is appended to a log that does not hold the cached heads yet and replaces _localHeads, so the earlier history becomes unreachable after the next restart: observed on the unchanged tree; the API contract - as in the JS implementation - is load first, then use; every harness loads before it writes)", "durability of leveldb / flatfs themselves, torn writes", "real secp256k1 key generation / signatures and the on-disk format of the keystore (keys are symbolic tokens, leveldb is the disk model with its directory lock)", "crashes during concurrent writers (C17 decides the write path's atomicity)"],
     },
     "C16": {
         "groups": [{
